@@ -443,18 +443,42 @@ func propC19(a *Analysis, r *Registry) {
 				return
 			}
 			wc := fc.Val(ifi.Cond)
+			// (the whole condition of a short-circuit chain `for runner != bdom && !seen`)
+			if _, gc, _, gmsg := b.loopGuard(fc, hdr); gmsg == "" && gc != nil && !b.rotated {
+				wc = gc
+			}
 			stop := env.MustParse("runner!=idom[b]")
 			if wc.Equal(stop) || X.EquivByCases(wc, stop, 0) {
 				r.OK(rB, name+"/walk-until-idom(b)", a.W.InstrPos(ifi), "the walk continues while runner != idom[b]")
 			} else if at := wc.SingleAtom(); at != nil && at.Name == "land" {
 				// a conjunction that includes the stop test (e.g. with a sentinel test) is accepted
 				has := false
+				extraBad := ""
 				for _, c := range at.Args {
 					if c.Equal(stop) || X.EquivByCases(c, stop, 0) {
 						has = true
+						continue
+					}
+					// a further conjunct over a value carried round the walk (a "this runner already
+					// has b, so do all above it" flag) must hold when a walk starts: every
+					// predecessor's walk begins afresh. A flag carried over from the previous
+					// predecessor's walk cuts later walks short and loses frontier members.
+					for _, ph := range fc.loopPhis(c) {
+						pa := ph.SingleAtom()
+						if pa == nil || ph.Equal(runner) || X.phiOf[pa.ID] == nil || X.phiOf[pa.ID].Block() != hdr {
+							continue
+						}
+						pi, _ := recurrenceOrNil(fc, ph)
+						if pi == nil {
+							extraBad = "the walk condition's extra conjunct " + clip(c.String(), 80) + " reads a loop-carried value without a recurrence"
+						} else if at0 := c.Subst(map[AtomID]*RF{pa.ID: pi}); !at0.Equal(S.True()) {
+							extraBad = "the walk condition's extra conjunct " + clip(c.String(), 80) + " is not known to hold when a predecessor's walk starts (it is " + clip(at0.String(), 80) + " there): a walk may be cut short by an earlier predecessor's walk"
+						}
 					}
 				}
-				if has {
+				if has && extraBad != "" {
+					r.Fail(rB, name+"/walk-until-idom(b)", a.W.InstrPos(ifi), extraBad)
+				} else if has {
 					r.OK(rB, name+"/walk-until-idom(b)", a.W.InstrPos(ifi), "the walk continues while runner != idom[b] (and a further condition)")
 				} else {
 					r.Fail(rB, name+"/walk-until-idom(b)", a.W.InstrPos(ifi), "walk condition is "+clip(wc.String(), 160))
